@@ -18,6 +18,12 @@ A missing anchor is a broken tie: the list then lacks that fact and the lock lem
   BF_PathSkewBranch      Path::new: with skew, abs_bounding_box = tight bounds of the transformed path
   BF_ImageAbs            image abs box = actual_size rect (0,0) .transform(parent.abs * image_ts)
   BF_GroupAbs            convert_group: abs_transform = parent.abs_transform.pre_concat(transform)
+  BF_GroupTsOnce         convert_group: `transform` is bound once, by node.resolve_transform(AId::Transform, state) (attribute AND
+                         transform-origin), the Group literal takes `transform, abs_transform` from those two bindings, and the body
+                         never assigns `.transform` / `.abs_transform` afterwards (the pair cannot drift apart: seed C12-14)
+  BF_TsAssignSites       the assignments to a group's `.transform` / `.abs_transform` outside of a constructor, in all of
+                         crates/usvg/src/parser, are exactly the sites the model's group kinds (GK_Plain, GK_ViaUse, GK_ClipWrap,
+                         sub-tree roots SR_*) were written against: (file, function, field, count) table
   BF_UseChildrenAbs      use_node::convert_children: parent.abs_transform temporarily pre_concat(transform), g.transform = transform
   BF_BackgroundAbs       convert_doc / background_path: the background rectangle is built by Path::new with root_ts as abs_transform
   BF_NewSimpleClipOnly   Path::new_simple (identity abs_transform) is called only for the clip rectangles of image.rs, marker.rs, use_node.rs
@@ -113,6 +119,26 @@ FACTS = [
 ]
 
 
+# (file, function, lhs, count): every assignment to a `.transform` / `.abs_transform` field in crates/usvg/src/parser
+TS_ASSIGN_SITES = sorted([
+    ('converter.rs', 'convert_doc', 'g.transform', 1), ('converter.rs', 'convert_doc', 'g.abs_transform', 1),          # root viewBox group
+    ('image.rs', 'convert_inner', 'g.transform', 1), ('image.rs', 'convert_inner', 'g.abs_transform', 1),              # image view box group
+    ('image.rs', 'convert_inner', 'g2.abs_transform', 1),                                                              # its clip wrapper
+    ('mask.rs', 'convert', 'g.transform', 1), ('mask.rs', 'convert', 'g.abs_transform', 1),                            # SR_MaskBBox
+    ('paint_server.rs', 'convert_pattern', 'g.transform', 1), ('paint_server.rs', 'convert_pattern', 'g.abs_transform', 1),  # SR_PatternViewBox
+    ('paint_server.rs', 'push_pattern_transform', 'g.transform', 1), ('paint_server.rs', 'push_pattern_transform', 'g.abs_transform', 1),
+    ('paint_server.rs', 'to_user_coordinates', 'base.transform', 2),                                                  # gradients (no group)
+    ('use_node.rs', 'convert', 'g.abs_transform', 1), ('use_node.rs', 'convert', 'g2.transform', 1), ('use_node.rs', 'convert', 'g.transform', 1),
+    ('use_node.rs', 'convert_svg', 'g.abs_transform', 1),
+    ('use_node.rs', 'convert_children', 'parent.abs_transform', 2), ('use_node.rs', 'convert_children', 'g.transform', 1),
+])
+
+
+def REPO_FALLBACK(api):
+    import os
+    return os.environ.get('VERIF_REPO', '/repo')
+
+
 def generate(api):
     cache = {}
     found = []
@@ -161,7 +187,51 @@ def generate(api):
                        "render_node: %d `?`, %d `return`, %d `None` (expected exactly the `?` on abs_layer_bounding_box)" % (nq, nr, nnone))
     except Exception as e:
         api.broken('table', 'BBoxTables.BF_RenderNodeSingleExit', PROPS, e)
-    names = [n for n, _, _ in FACTS] + ['BF_NewSimpleClipOnly', 'BF_RenderNodeSingleExit']
+    # convert_group: one binding of `transform`, used for both fields, never reassigned
+    try:
+        conv = api.rd(CONV)
+        _, _, body = api.rs2coq.find_fn(conv, 'convert_group')
+        nb = norm(body)
+        n_bind = len(re.findall(r"\blet (?:mut )?transform\b", nb))
+        n_assign = len(re.findall(r"\.\s*(?:abs_)?transform\s*=[^=]", nb)) + len(re.findall(r"\b(?:abs_)?transform\s*=[^=]", re.sub(r"\blet (?:mut )?(?:abs_)?transform\b[^;]*;", "", nb)))
+        ok = (n_bind == 1 and n_assign == 0
+              and 'let transform = node.resolve_transform(AId::Transform, state);' in nb
+              and re.search(r"let abs_transform = parent\.abs_transform\.pre_concat\(transform\); let dummy = [^;]*; let mut g = Group \{ id, transform, abs_transform,", nb))
+        if ok:
+            found.append('BF_GroupTsOnce')
+        else:
+            api.broken('table', 'BBoxTables.BF_GroupTsOnce', PROPS,
+                       "convert_group: %d bindings of `transform`, %d later assignments to transform / abs_transform (expected 1 binding by "
+                       "resolve_transform feeding both Group fields, 0 assignments)" % (n_bind, n_assign))
+    except Exception as e:
+        api.broken('table', 'BBoxTables.BF_GroupTsOnce', PROPS, e)
+    # every assignment to `.transform` / `.abs_transform` of a group in the parser
+    try:
+        import os
+        sites = []
+        pdir = 'crates/usvg/src/parser'
+        for fn in sorted(os.listdir(os.path.join(REPO_FALLBACK(api), pdir))):
+            if not fn.endswith('.rs'):
+                continue
+            src = api.rd(pdir + '/' + fn)
+            src = re.sub(r"//[^\n]*", "", src)
+            # split into top-level / impl-level functions
+            for m in re.finditer(r"\bfn\s+(\w+)", src):
+                pass
+            fns = [(m.start(), m.group(1)) for m in re.finditer(r"\bfn\s+(\w+)", src)]
+            for m in re.finditer(r"\b(\w+)\.(abs_transform|transform)\s*=[^=]", src):
+                owner = [name for pos, name in fns if pos < m.start()]
+                sites.append((fn, owner[-1] if owner else '-', m.group(1) + '.' + m.group(2)))
+        table = sorted(set((a, b, c, sites.count((a, b, c))) for a, b, c in sites))
+        if table == TS_ASSIGN_SITES:
+            found.append('BF_TsAssignSites')
+        else:
+            api.broken('table', 'BBoxTables.BF_TsAssignSites', PROPS,
+                       "assignments to .transform / .abs_transform in crates/usvg/src/parser changed: new %r, gone %r"
+                       % (sorted(set(table) - set(TS_ASSIGN_SITES)), sorted(set(TS_ASSIGN_SITES) - set(table))))
+    except Exception as e:
+        api.broken('table', 'BBoxTables.BF_TsAssignSites', PROPS, e)
+    names = [n for n, _, _ in FACTS] + ['BF_NewSimpleClipOnly', 'BF_RenderNodeSingleExit', 'BF_GroupTsOnce', 'BF_TsAssignSites']
     out = [api.HEADER, "From Coq Require Import List.\nImport ListNotations.\n",
            "Inductive bbox_fact :=\n  | " + "\n  | ".join(names) + ".\n",
            "Definition bbox_facts : list bbox_fact := [%s].\n" % "; ".join(found),
